@@ -56,6 +56,7 @@ type MultiStep struct {
 	N    int    `json:"n"`    // leaf: rows
 	S    int    `json:"s"`    // leaf: shards
 	X    bool   `json:"x"`    // exclusive Func
+	Twice bool  `json:"twice,omitempty"` // run the Func a second time with the very same argument slice
 }
 
 type MultiCase struct {
@@ -146,6 +147,31 @@ func runMulti(c MultiCase) (err error, nt bool) {
 		if runErr != nil {
 			return fmt.Errorf("step %d (%s over results %v, exclusive=%v): Run failed: %v", i, st.K, st.Args, st.X, runErr), nt
 		}
+		if st.Twice && st.K != "leaf" {
+			// the same Func with the very same argument slice again: Run must not have changed the slice
+			for k, a := range args {
+				if _, ok := a.(*exec.Result); !ok {
+					return fmt.Errorf("step %d (%s): after Run returned, argument %d of the slice the caller passed is a %T, no longer the *exec.Result that was passed", i, st.K, k, a), nt
+				}
+			}
+			var again *exec.Result
+			var againErr error
+			finished := runner.WithTimeout(120*time.Second, func() {
+				defer func() {
+					if r := recover(); r != nil {
+						againErr = fmt.Errorf("panic: %v", r)
+					}
+				}()
+				again, againErr = sess.Run(ctx, f, args...)
+			})
+			if !finished {
+				return fmt.Errorf("step %d (%s): the second Run with the same arguments did not return within 120s", i, st.K), nt
+			}
+			if againErr != nil && attempts == 1 {
+				return fmt.Errorf("step %d (%s): the second Run with the same argument slice failed: %v", i, st.K, againErr), nt
+			}
+			_ = again
+		}
 		var got []string
 		var scanErr error
 		for a := 0; a < attempts; a++ {
@@ -175,7 +201,7 @@ const tMulti = "TestVerifC16MultiResult"
 
 func TestVerifC16MultiResult(t *testing.T) {
 	rec := vt.New("C16", "multi-result-invocations",
-		"rapid: histories of 2..8 invocations in a fresh session on the bigmachine test system (2 machines): leaf Funcs (1..3 shards) and Funcs over 2 or 3 earlier Results (any earlier results, repeats allowed, results of multi-result Funcs included; a Func that returns one argument unchanged and only depends on the other), plain or Exclusive (an Exclusive Func gets machines of its own, which have compiled none of the argument invocations), optionally a machine kill in between (the replacement machine is equally fresh); oracle: every run succeeds (3 attempts after a kill) and its rows are the union its arguments describe; non-trivial = an invocation over >= 2 Results ran; distinct by case hash")
+		"rapid: histories of 2..8 invocations in a fresh session on the bigmachine test system (2 machines): leaf Funcs (1..3 shards) and Funcs over 2 or 3 earlier Results (any earlier results, repeats allowed, results of multi-result Funcs included; a Func that returns one argument unchanged and only depends on the other), plain or Exclusive (an Exclusive Func gets machines of its own, which have compiled none of the argument invocations), optionally a machine kill in between (the replacement machine is equally fresh); a third of the multi-result invocations are run a second time with the very same argument slice; oracle: every run succeeds (3 attempts after a kill), its rows are the union its arguments describe, and Run leaves the caller's argument slice as it was; non-trivial = an invocation over >= 2 Results ran; distinct by case hash")
 	docs, only := vt.Replays(tMulti)
 	for _, d := range docs {
 		var c MultiCase
@@ -212,6 +238,7 @@ func TestVerifC16MultiResult(t *testing.T) {
 			default:
 				st.Args = rapid.SliceOfN(rapid.IntRange(0, 7), 3, 3).Draw(rt, "args")
 				st.X = rapid.Bool().Draw(rt, "exclusive")
+				st.Twice = rapid.IntRange(0, 2).Draw(rt, "twice") == 0
 				nres++
 				if st.X {
 					classes["exclusive"] = true
